@@ -28,6 +28,87 @@ pub mod std_shim {
     pub mod thread {
         pub use shuttle::thread::*;
     }
+    /// Standard output is one locked resource shared by both threads: code in the scope of the shim
+    /// that takes `std::io::stdout().lock()` excludes every other writer for as long as it holds it.
+    pub mod io {
+        pub use ::std::io::*;
+        pub fn stdout() -> super::super::SimStdout {
+            super::super::SimStdout
+        }
+    }
+}
+
+pub struct SimStdout;
+pub struct SimStdoutLock {
+    _not_send: std::marker::PhantomData<*const ()>,
+}
+
+fn me() -> Option<shuttle::thread::ThreadId> {
+    let threaded = with_sim(|s| s.stdin.is_some() && !s.process_exited).unwrap_or(false);
+    if threaded {
+        Some(shuttle::thread::current().id())
+    } else {
+        None
+    }
+}
+
+/// Block (as a loop of scheduling points) while another thread holds the stdout lock.
+fn wait_for_stdout() {
+    let Some(me) = me() else { return };
+    loop {
+        let free = with_sim(|s| s.stdout_owner.is_none() || s.stdout_owner == Some(me) || s.teardown).unwrap_or(true);
+        if free {
+            return;
+        }
+        with_sim(|s| s.stdout_lock_waits += 1);
+        shuttle::thread::yield_now();
+    }
+}
+
+impl SimStdout {
+    pub fn lock(&self) -> SimStdoutLock {
+        wait_for_stdout();
+        if let Some(me) = me() {
+            with_sim(|s| {
+                s.stdout_owner = Some(me);
+                s.stdout_depth += 1;
+            });
+        }
+        SimStdoutLock { _not_send: std::marker::PhantomData }
+    }
+}
+
+impl Drop for SimStdoutLock {
+    fn drop(&mut self) {
+        with_sim(|s| {
+            if s.stdout_depth > 0 {
+                s.stdout_depth -= 1;
+                if s.stdout_depth == 0 {
+                    s.stdout_owner = None;
+                }
+            }
+        });
+    }
+}
+
+impl std::io::Write for SimStdout {
+    fn write(&mut self, buf: &[u8]) -> std::io::Result<usize> {
+        out_partial(String::from_utf8_lossy(buf).into_owned());
+        Ok(buf.len())
+    }
+    fn flush(&mut self) -> std::io::Result<()> {
+        Ok(())
+    }
+}
+
+impl std::io::Write for SimStdoutLock {
+    fn write(&mut self, buf: &[u8]) -> std::io::Result<usize> {
+        out_partial(String::from_utf8_lossy(buf).into_owned());
+        Ok(buf.len())
+    }
+    fn flush(&mut self) -> std::io::Result<()> {
+        Ok(())
+    }
 }
 
 /// Payload of the panic with which the simulator unwinds a search thread that keeps running although
@@ -186,6 +267,9 @@ pub struct Sim {
     pub events_logged: u64,
     pub last_line_in: Option<String>,
     pub partial_line: String,
+    pub stdout_owner: Option<shuttle::thread::ThreadId>,
+    pub stdout_depth: u32,
+    pub stdout_lock_waits: u64,
     // stdin
     pub stdin: Option<Box<dyn LineSource>>,
     pub gui_waiting: bool,
@@ -281,6 +365,9 @@ impl Sim {
             events_logged: 0,
             last_line_in: None,
             partial_line: String::new(),
+            stdout_owner: None,
+            stdout_depth: 0,
+            stdout_lock_waits: 0,
             stdin: None,
             gui_waiting: false,
             gui_wait_for: WaitFor::default(),
@@ -409,6 +496,7 @@ fn write_is_a_scheduling_point() {
 
 pub fn out_partial(text: String) {
     write_is_a_scheduling_point();
+    wait_for_stdout();
     let installed = with_sim(|s| s.partial_line.push_str(&text)).is_some();
     if !installed {
         use std::io::Write;
@@ -418,6 +506,9 @@ pub fn out_partial(text: String) {
 
 pub fn out_line(stream: u8, text: String) {
     write_is_a_scheduling_point();
+    if stream == 0 {
+        wait_for_stdout();
+    }
     let mut notify = false;
     let installed = with_sim(|s| {
         let mut line = std::mem::take(&mut s.partial_line);
